@@ -1,4 +1,5 @@
 """C09 — the serialized bridge is a faithful, correctly routed image of the core (structural clauses)."""
+import re
 from rules.facts import norm, path_matches, origins, flows_to, call_matches, last_seg
 from rules.props import c01, c06
 
@@ -16,6 +17,37 @@ EXPLANATION = (
     'From<Request<Op>> builds the variant whose payload is Op; R09.e a registry entry changes state only when a one-shot is consumed — a stream '
     'entry never does, so its id stays bound while it can be resolved. Byte-level equality with the typed core for every history is not decided '
     '(C02 R02.b and C10 R10.d cover arity and codec).')
+
+
+def check_entry_writers(rep, rid, core):
+    """who may write a registry entry: the arity state of a ResolveSerialized (and of a typed Resolve) is changed only inside its own
+    `resolve` — nothing else replaces, swaps, takes or overwrites one through a reference (a placeholder swapped into the registry
+    while the lock is released makes a concurrent response see the wrong arity)"""
+    n = 0
+    for adt, owner in (('crux_core::bridge::request_serde::ResolveSerialized', 'resolve'), ('crux_core::core::resolve::Resolve', 'resolve')):
+        short = adt.rsplit('::', 1)[-1]
+        rx = re.compile(r"(^|[ &<(])" + re.escape(adt) + r"(<[^ ]*>)?$")
+        for f in core.built:
+            if f.j.get('exp'):
+                continue
+            writes = []
+            for bb, t in f.calls('core::mem::replace', 'core::mem::swap', 'core::mem::take'):
+                if rx.search((t.get('targs') or [''])[0]):
+                    writes.append((bb, last_seg(t['callee'])))
+            for bb, i, st in f.stmts('assign'):
+                d = st['d']
+                if d['p'] and d['p'][-1] == '*' and rx.search(d.get('t') or ''):
+                    writes.append((bb, 'store'))
+            if not writes:
+                continue
+            n += 1
+            own = f.name == owner and path_matches(f.assoc.get('self_adt'), adt) or \
+                (f.kind == 'Closure' and (f.root or '').endswith('::' + owner) and short + '::' in (f.root or ''))
+            rep.expect(rid, bool(own), '%s|writes %s' % (f.kpath, short), 'the only writer of a %s state is its own resolve' % short,
+                       '%s overwrites a %s through a reference (%s): the arity state of an entry may only change inside %s::resolve'
+                       % (f.where(writes[0][0]), short, ', '.join(sorted(set(w for _, w in writes))), short))
+    if n < 2:
+        rep.bad(rid, 'entry-writers', 'expected the two resolve functions to write their own state, found %d writer(s)' % n)
 
 
 def bridge_pipeline(core):
@@ -187,6 +219,7 @@ def check(ctx, rep):
                        'the Once arm becomes Never exactly by taking its closure out', 'the Once arm of ResolveSerialized::resolve no longer consumes the entry')
             rep.expect('R09.e', not tab['Never']['writes_self'] and tab['Never']['closure_calls'] == 0, 'Never-stays', 'the Never arm changes nothing',
                        'the Never arm of ResolveSerialized::resolve writes or calls something')
+    check_entry_writers(rep, 'R09.e', core)
     # R09.c
     ok, detail = bridge_pipeline(core)
     rep.expect('R09.c', ok, 'process|pipeline', detail, 'the bridge does not serialise exactly effects.into_iter().map(register).collect() of a core run (%s)' % detail)
